@@ -296,10 +296,10 @@ func runC07(w *World) {
 				w.StopServer()
 				simrt.Sleep(3 * time.Second)
 				if si := w.StartServer(); si.StartErr != nil {
+					// an account file the loader cannot digest is not a confinement question: counted, not judged here
+					// (this probe is how the regression d10df29 was noticed; C15/C20 judge restartability)
 					w.Probe("restart_refused_by_account_files")
-					// an account file the loader cannot digest is not C07's business; go on with a fresh server on the
-					// same directory only if it starts
-					w.Violate("c07-restart-fails", "step %d: the server does not start from the account files the requests left: %v", step, si.StartErr)
+					confined(step, op, desc)
 					return
 				}
 				c.Conn = nil
